@@ -2061,6 +2061,11 @@ def gen(ctx):
         return '(H "%s"%%string)' % bytes(b).hex() if b else "(@nil N)"
 
     t, problems = read_cookie_tables()
+    if not os.path.exists(os.path.join(fw.COQ, "Gen", "C07_tables.v")) or not os.path.exists(os.path.join(fw.COQ, "Gen", "C07_dates.v")):
+        # C07's regenerated files are Required by the transport proofs; on a tree where C07's check (or --setup) has not
+        # run yet, produce them with C07's own generator
+        from harness.props import c07
+        c07.gen(fw.Ctx("C07", "quick", 0))
     out = ["(* GENERATED from src/webob/cookies.py of the tree under check by harness/props/c16.py - do not edit *)",
            "From Coq Require Import NArith List String.", "Require Import Webob.Lib.Val Webob.Gen.C07_tables.",
            "Import ListNotations.", "Local Open Scope N_scope.",
